@@ -27,18 +27,26 @@ def _n(v):
 # ------------------------------------------------------------------------------------
 # performing one abstract call on a live object
 
-def perform(cname, x, call, nid):
-    """Execute the call on x.  Returns outcome dict."""
+def perform(cname, x, call, nid, pool=None):
+    """Execute the call on x.  Returns outcome dict.  Argument objects and returned objects are
+    appended to `pool` as (object, class, ids it must keep holding) so that the caller can check,
+    after every later step, that nothing else was changed (aliasing between receiver, arguments
+    and results)."""
     op = call["op"]
     C = CLS[cname]
 
+    def keep(o, c, ids):
+        if pool is not None:
+            pool.append((o, c, list(ids)))
+        return o
+
     def arg(kind):
         if kind == "single":
-            return inject(cname, [nid])
+            return keep(inject(cname, [nid]), cname, [nid])
         if kind == "multi":
-            return inject(cname, [900, 901])
+            return keep(inject(cname, [nid, nid + 1]), cname, [nid, nid + 1])
         if kind == "wrong":
-            return inject(WRONG[cname], [nid])
+            return keep(inject(WRONG[cname], [nid]), WRONG[cname], [nid])
         raise MachineryError("kind " + kind)
 
     try:
@@ -55,9 +63,10 @@ def perform(cname, x, call, nid):
         elif op == "append":
             r = x.append(arg(call["kind"]))
         elif op == "extend":
-            r = x.extend(inject(cname, list(range(nid, nid + call["n"]))))
+            ids = list(range(nid, nid + call["n"]))
+            r = x.extend(keep(inject(cname, ids), cname, ids))
         elif op == "extend_wrong":
-            r = x.extend(inject(WRONG[cname], [nid, nid + 1]))
+            r = x.extend(keep(inject(WRONG[cname], [nid, nid + 1]), WRONG[cname], [nid, nid + 1]))
         elif op == "insert":
             r = x.insert(call["i"], arg(call["kind"]))
         elif op == "pop":
@@ -80,7 +89,10 @@ def perform(cname, x, call, nid):
         raise
     except Exception as e:  # noqa: BLE001 - the outcome *is* the exception
         return {"k": "raise", "e": type(e).__name__, "index": isinstance(e, IndexError)}
-    return classify(cname, r)
+    out = classify(cname, r)
+    if pool is not None and out["k"] == "obj" and all(isinstance(v, int) for v in out["v"]):
+        pool.append((r, cname, list(out["v"])))
+    return out
 
 
 def classify(cname, r):
@@ -252,17 +264,27 @@ def replay_path(j, cname, h):
     x = inject(cname, h[0]["post"])
     pre = h[0]["post"]
     diverged = 0
+    pool = []
     for step in h[1:]:
         call, res, post, nid = step["call"], step["res"], step["post"], step["nid"]
         if call["op"] == "copy" and cname.startswith("Spatial"):
             j.skip("copy-constructor of spatial-vector classes is not part of the C10 statement")
             continue
-        got = perform(cname, x, call, nid)
+        npool = len(pool)
+        got = perform(cname, x, call, nid, pool)
         mode = compare(cname, res, got)
         _, state = project(cname, x)
         if mode is None and state != post:
             mode = "state-changed-on-failure" if res["k"] == "raise" else "wrong-state"
+        if mode is None:
+            # frame: every argument / result object seen so far still holds what it held
+            for (o, c, ids) in pool:
+                if project(c, o)[1] != ids:
+                    mode = "other-object-changed"
+                    got = dict(got, changed={"cls": c, "expected": ids, "now": project(c, o)[1]})
+                    break
         if mode:
+            del pool[:]
             diverged += 1
             key = "%s|%s|%s;%s|%s" % (PID, call["op"], cname, features(call, len(pre)), mode)
             j.fail(key, {"kind": "path-step", "cls": cname, "pre": pre, "call": call, "nid": nid,
